@@ -83,8 +83,13 @@ func main() {
 				runBatch(emit, f[2], f[3])
 			case "net":
 				runNet(emit, f[2], f[3])
+			case "val":
+				runVal(emit, f[2], f[3])
+			case "comp":
+				runComp(emit, f[2], f[3])
 			}
 		})
+		closeValWorlds()
 		return
 	}
 
@@ -122,6 +127,29 @@ func main() {
 			r := root.Fork(uint64(k))
 			cfg, sc := genBatchScript(r, thorough)
 			runBatch(emit, cfg, sc)
+		})
+	case "val":
+		if n < 0 {
+			n = 3000
+		}
+		parallel(out, n, 2, func(k int, emit func(string)) {
+			if a.Only >= 0 && k != a.Only {
+				return
+			}
+			mode, h := genValScript(root.Fork(uint64(k)))
+			runVal(emit, mode, h)
+		})
+		closeValWorlds()
+	case "comp":
+		if n < 0 {
+			n = 24
+		}
+		parallel(out, n, workers, func(k int, emit func(string)) {
+			if a.Only >= 0 && k != a.Only {
+				return
+			}
+			cfg, sc := genCompScript(root.Fork(uint64(k)))
+			runComp(emit, cfg, sc)
 		})
 	case "net":
 		if n < 0 {
